@@ -4,7 +4,7 @@ from engine.qb import (AnalysisBroken, abstract_run, estr, unwrap, cval, walk, l
 from rules.common import field_is, has_call, value_sources, derives
 
 UNITS = ['lib/loop.c', 'lib/loop_job.c', 'lib/loop_timerlist.c', 'lib/loop_poll.c', 'lib/loop_poll_epoll.c']
-ALT_CONFIGS = [{'name': 'poll2-driver', 'flags': ['-UHAVE_EPOLL_CREATE1', '-UHAVE_EPOLL_CREATE', '-DQB_VERIF_NO_EPOLL'],
+ALT_CONFIGS = [{'name': 'poll2-driver', 'config_undef': ['HAVE_EPOLL_CREATE1', 'HAVE_EPOLL_CREATE'],
                 'units': ['lib/loop.c', 'lib/loop_job.c', 'lib/loop_timerlist.c', 'lib/loop_poll.c', 'lib/loop_poll_poll.c'],
                 'rules': ['R5'], 'optional': True}]
 DECIDES = ('Decides unlink-before-dispatch, one-shot jobs, timer and poll slot state machines (by finite evaluation over the slot '
